@@ -6,18 +6,21 @@ MANIFEST = {
     "text": "Coq (for every body, position, option set, prior state): C17_host_pure_rule (a `:host{...}` rule is handed to "
             "host_emit as a whole, siblings untouched), C17_host_emit_normal_unchanged (host_emit never writes to the normal "
             "output — induction over the value walker in low-priority mode), C17_host_combined_dropped_with_warning, "
-            "C17_host_off_identity; with C08_tokens_preserved: conversion off => low output empty and every rule stays in "
+            "C17_host_off_identity, and C17_host_classification: for EVERY prelude (any tokens, any length) the two scans of the "
+            "code classify the rule exactly as the specification does (host_kind_of: `:host` alone in any letter case => "
+            "converted; `:host` / `:host(` anywhere else among the top-level tokens => dropped with one warning; otherwise "
+            "the ordinary selector walker); with C08_tokens_preserved: conversion off => low output empty and every rule stays in "
             "order in the normal output. Each run: both re-tokenised outputs and the warnings of the real crate are "
             "compared with the specification's partition (CssSpec.rules_spec: normal = non-host rules in order, low = each "
             "pure host rule as [wx-host=..](,[is=..]) wrapped in the token chain of its enclosing at-rules, balanced "
             "braces) for sheets with :host at arbitrary at-rule depth.",
     "note": "NOT proved as one theorem: the multiset/partition statement over whole sheets (it is the executable "
-            "specification checked on every generated sheet). No known class is left for this property (D14 and D26 were repaired in /repo)",
+            "specification checked on every generated sheet). No known class is left for this property (D14, D26, `:HOST` and `:host` later in the selector were repaired in /repo)",
     "technique": "Coq lemmas about the host branch (symbolic, all inputs) + executable-spec conformance of both outputs",
 }
 
 THEOREMS = ["C17_host_off_identity", "C17_host_pure_rule", "C17_host_emit_normal_unchanged",
-            "C17_host_combined_dropped_with_warning", "C17_host_spaced_not_converted", "C17_host_comment_still_host"]
+            "C17_host_combined_dropped_with_warning", "C17_host_spaced_not_converted", "C17_host_comment_still_host", "C17_host_classification"]
 
 
 def run(res):
